@@ -27,9 +27,8 @@ func (c *ColAuto) infer(t ColumnType, depth int) error {
 	if depth > maxInferDepth {
 		return errors.Errorf("column type is nested deeper than %d levels", maxInferDepth)
 	}
-	if c.Data != nil && !c.Type().Conflicts(t) {
+	if c.Data != nil && c.DataType == t {
 		// Already ok.
-		c.DataType = t // update subtype if needed
 		return nil
 	}
 	if v := inferGenerated(t); v != nil {
